@@ -28,6 +28,7 @@ TYPES = [
     items("src/errors.rs", ["ProofError"]),
     items("src/generators/pedersen_gens.rs", ["ExtensionDegree", "PedersenGens"]),
     items("src/generators/bulletproof_gens.rs", ["BulletproofGens"]),
+    items("src/generators/aggregated_gens_iter.rs", ["AggregatedGensIter"]),
     items("src/range_parameters.rs", ["RangeParameters"]),
     items("src/range_statement.rs", ["RangeStatement"]),
     items("src/commitment_opening.rs", ["CommitmentOpening"]),
@@ -44,10 +45,16 @@ EXT_TRYFROM = [
 ]
 
 
-def types(ext="stub"):
+IMPL_ITER_SUBST = [("impl Iterator < Item = & P >", "AggregatedGensIter<'_, P>")]
+AGI_HEADER = "impl<'a, P> Iterator for AggregatedGensIter<'a, P> {\n    type Item = &'a P;"
+
+
+def types(ext="stub", agi="stub"):
     """extracted type definitions + ExtensionDegree conversions (verified in unit ctors, contract assumed elsewhere) + spec-side facts"""
     k = {"fns": ["try_from"]} if ext == "body" else {"stubs": ["try_from"]}
-    return TYPES + [with_fns(EXT_TRYFROM[0], **k), with_fns(EXT_TRYFROM[1], **k), text("spec/types_spec.rs")]
+    ka = {"fns": ["next"]} if agi == "body" else {"stubs": ["next"]}
+    agi_piece = fns("src/generators/aggregated_gens_iter.rs", AGI_HEADER, "AggregatedGensIter", impl_filter="impl Iterator for AggregatedGensIter", **ka)
+    return TYPES + [with_fns(EXT_TRYFROM[0], **k), with_fns(EXT_TRYFROM[1], **k), text("spec/types_spec.rs"), text("spec/spec_gens.rs"), agi_piece]
 
 
 def with_fns(piece, fns=None, stubs=None):
@@ -62,7 +69,7 @@ UNITS = {}
 # ---------------------------------------------------------------- U1 + U2 + U3: utilities and constructors
 UNITS["ctors"] = {
     "prelude": PRELUDE_ALL,
-    "contracts": ["ctors.vc", "gens_stub.vc"],
+    "contracts": ["ctors.vc", "gens_stub.vc", "gens.vc"],
     "pieces": types("body") + [
         fns("src/commitment_opening.rs", "impl CommitmentOpening {", "CommitmentOpening", fns=["new", "r_len"]),
         fns("src/extended_mask.rs", "impl ExtendedMask {", "ExtendedMask", fns=["assign", "blindings"]),
@@ -90,7 +97,7 @@ TPROTO_HEADER = "impl TranscriptProtocol for Transcript {\n    open spec fn tlog
 
 UNITS["transcripts"] = {
     "prelude": PRELUDE_ALL,
-    "contracts": ["transcripts.vc", "ctors.vc"],
+    "contracts": ["transcripts.vc", "ctors.vc", "gens.vc"],
     "owns_text": ["spec/tproto_trait.rs"],
     "pieces": types() + RPT_ITEMS + [
         text("spec/tproto_trait.rs"),
@@ -106,7 +113,7 @@ UNITS["transcripts"] = {
 SPROTO_HEADER = "impl ScalarProtocol for Scalar {"
 UNITS["nonce"] = {
     "prelude": PRELUDE_ALL,
-    "contracts": ["nonce.vc", "ctors.vc"],
+    "contracts": ["nonce.vc", "ctors.vc", "gens.vc"],
     "owns_text": ["spec/sproto_trait.rs"],
     "pieces": types() + [
         items("src/utils/generic.rs", ["BLAKE2B_PERSONA_LIMIT"]),
@@ -118,4 +125,47 @@ UNITS["nonce"] = {
         text("spec/canaries_nonce.rs"),
     ],
     "safety": {"*": ["C09"], "nonce": ["C09", "C16"], "encode_usize": ["C09", "C16"]},
+}
+
+# ---------------------------------------------------------------- U8: generators
+UNITS["gens"] = {
+    "prelude": PRELUDE_ALL,
+    "contracts": ["gens.vc", "ctors.vc"],
+    "pieces": types(agi="body") + [
+        text("spec/spec_wf.rs"),
+        fns("src/generators/bulletproof_gens.rs", "impl BulletproofGens<P> {", "BulletproofGens", fns=["g_iter", "h_iter"], subst=IMPL_ITER_SUBST),
+        fns("src/range_parameters.rs", "impl RangeParameters<P> {", "RangeParameters", fns=["gi_base_iter", "hi_base_iter", "precomp"],
+            stubs=["bit_length", "max_aggregation_factor"], subst=IMPL_ITER_SUBST),
+    ],
+    "safety": {"*": ["C11"], "next": ["C11", "C16"]},
+}
+
+# ---------------------------------------------------------------- U9-U14: verifier
+RP_HEADER = "impl RangeProof<P> {"
+RP_GETTER_STUBS = ["max_aggregation_factor", "bit_length", "extension_degree", "h_base", "g_bases", "h_base_compressed", "g_bases_compressed",
+                   "gi_base_iter", "hi_base_iter", "precomp"]
+
+
+def verifier_pieces(verify_fns, verify_stubs):
+    return types() + RPT_ITEMS + [
+        text("spec/tproto_trait.rs"), text("spec/sproto_trait.rs"), text("spec/spec_transcript.rs"), text("spec/spec_mask.rs"), text("spec/spec_wf.rs"),
+        text("spec/spec_verify.rs"),
+        fns("src/protocols/transcript_protocol.rs", TPROTO_HEADER, "TranscriptProtocol", stubs=TPROTO_FNS, impl_filter="impl TranscriptProtocol for Transcript"),
+        fns("src/protocols/scalar_protocol.rs", SPROTO_HEADER, "ScalarProtocol", stubs=["random_not_zero", "from_hasher_blake2b"],
+            impl_filter="impl ScalarProtocol for Scalar"),
+        fns("src/transcripts.rs", RPT_HEADER, "RangeProofTranscript", stubs=["new", "challenges_y_z", "challenge_round_e", "challenge_final_e", "to_verifier_rng"]),
+        fns("src/utils/generic.rs", None, None, stubs=["nonce", "compute_generator_padding"]),
+        fns("src/extended_mask.rs", "impl ExtendedMask {", "ExtendedMask", stubs=["assign"]),
+        fns("src/range_parameters.rs", "impl RangeParameters<P> {", "RangeParameters", stubs=RP_GETTER_STUBS, subst=IMPL_ITER_SUBST),
+        fns("src/range_proof.rs", RP_HEADER, "RangeProof", fns=verify_fns, stubs=verify_stubs, mapcollect=True),
+    ]
+
+
+UNITS["verify"] = {
+    "prelude": PRELUDE_ALL,
+    "contracts": ["ctors.vc", "gens.vc", "transcripts.vc", "nonce.vc", "consistency.vc", "batch.vc", "verify_safety.vc", "verify_transcript.vc", "verify_mask.vc"],
+    "pieces": verifier_pieces(["verify_batch", "verify", "verify_statements_and_generators_consistency", "a_decompressed", "a1_decompressed",
+                               "b_decompressed", "li_decompressed", "ri_decompressed"], []),
+    "safety": {"*": ["C16"]},
+    "rlimit": 150,
 }
